@@ -41,17 +41,21 @@ func c16CaseCwd(c *c16Case) string {
 	switch c.Kind {
 	case 0:
 		switch c.FS {
-		case 1, 8:
+		case 1, 8, 11:
 			return "W"
-		case 9, 10:
+		case 9, 10, 12, 13:
 			return "root"
 		}
 	case 1:
 		switch {
 		case c.Variant == 1:
 			return "W"
-		case c.Variant >= 8 && c.Variant <= 12:
+		case c.Variant >= 8 && c.Variant <= 12, c.Variant == 18, c.Variant == 19:
 			return "root"
+		}
+	case 2:
+		if c.Variant == 6 {
+			return "W"
 		}
 	}
 	return ""
